@@ -85,6 +85,8 @@ Init == /\ store = [s \in Subj |-> [i \in Src |-> NoCell]]
         /\ now = 0
         /\ last = [op |-> "Init"]
 
+\* Set stores a *copy* of what it is handed: the cell depends on the arguments of this call alone, not on what the caller
+\* does with its dictionary afterwards or hands over in a later call (the replay re-uses one dictionary for every call)
 Set(s, i, a, e) ==
     /\ store' = [store EXCEPT ![s][i] = Cell(e, a)]
     /\ last' = [op |-> "Set", s |-> s, i |-> i, ava |-> a, exp |-> e, ret |-> [r |-> "ok"]]
